@@ -213,6 +213,9 @@ impl Prop for C01 {
     fn id(&self) -> &'static str {
         "C01"
     }
+    fn fuzz_target(&self) -> Option<&'static str> {
+        Some("tape")
+    }
     fn rule(&self) -> String {
         "tape-decoded well-typed expression DAGs (all 35 node kinds incl. arrays and div/rem, widths {1,2-8,31-33,63-65,127-129,130-200}, literal shapes 0/1/ones/one-hot/masks/shift amounts >= width and >= 2^32, rule-shaped operand choices) simplified in three modes (simplify_single_expression; persistent Simplifier with sparse or dense cache fed several roots; system::transform::simplify_expressions on a system built from the roots). Oracle: same type, deep type check of every result node, no non-canonical literal, reference-evaluator equality of original and result under all assignments (<= 12 symbol bits) or 24 corner-biased samples. Non-trivial: result != input and input has >= 1 symbol; distinct by hash of the input expression.".into()
     }
